@@ -27,3 +27,5 @@ EQUIVALENT = [
     ('rename locals', M, "            rows = _index_of(s, sf.rows)\n", "            rows = _index_of(s, sf.rows)\n            assert len(rows) == len(s)\n"),
     ('einsum spaces', M, "    features = np.einsum('ijk,ljk->lki', pcs, x)", "    features = np.einsum('ijk, ljk -> lki', pcs, x)"),
 ]
+BREAKING.append(('stored feature rows copied through a half-precision buffer', M, "        features = np.empty((ns, n_channels_loc, n_pcs))\n        features[:] = np.nan", "        features = np.empty((ns, n_channels_loc, n_pcs), dtype=np.float16)\n        features[:] = np.nan", ['C06.A1']))
+EQUIVALENT.append(('NaN buffer allocated by np.full', M, "        features = np.empty((ns, n_channels_loc, n_pcs))\n        features[:] = np.nan", "        features = np.full((ns, n_channels_loc, n_pcs), np.nan)"))
